@@ -195,7 +195,8 @@ func filterOpsByVersionTime(ops []*operation.AnchoredOperation, timeStr string) 
 	}
 
 	for _, op := range ops {
-		if op.TransactionTime <= uint64(vt.Unix()) {
+		// a version time before the epoch precedes every anchored operation (converting it to uint64 would wrap)
+		if vt.Unix() >= 0 && op.TransactionTime <= uint64(vt.Unix()) {
 			filteredOps = append(filteredOps, op)
 		}
 	}
